@@ -133,6 +133,7 @@ static int64_t cat(int64_t a, int64_t b) {
   return ((((a >> 4) | ((b >> 4) << (8 * na)))) << 4) | (na + nb);
 }
 #define PLACEMARKER (-7)
+static bool is_str_val(int64_t v) { return v == verif_spell("\"\"") || v == verif_spell("\"p\"") || v == verif_spell("\"q\""); }
 static bool is_ident_val(int64_t v) { return v == verif_spell("a") || v == verif_spell("p") || v == verif_spell("q"); }
 
 static int64_t ref_out[MAXBODY + 1];
@@ -176,6 +177,9 @@ static int reference(void) {
   for (int k = 0; k < MAXBODY; k++) {
     if (k >= m) continue;
     if (glue[k]) {
+      // an operand of ## that is itself the result of # : the order of evaluation of # and ## is
+      // unspecified (C11 6.10.3.2p2) -- nothing claimed
+      if (is_str_val(acc) || is_str_val(opnd[k])) return 2;
       if (acc == PLACEMARKER) acc = opnd[k];
       else if (opnd[k] != PLACEMARKER) {
         if (!is_ident_val(acc) && (acc & 15) > 1) return 2;          // string literal ## x: not a valid token
